@@ -25,6 +25,7 @@ struct TokenInfo {
     s2c: [u8; 32],
     protocol: u64,
     expire: u64,
+    timeout: i32,
 }
 
 pub struct NHistory {
@@ -46,6 +47,7 @@ pub struct NHistory {
     delivered_to_server: HashSet<(SocketAddr, Vec<u8>)>,
     token_seen_from: HashMap<u64, HashSet<SocketAddr>>, // token -> addresses its request was presented from
     token_sessions: HashMap<u64, u32>,  // token -> sessions established with it
+    invalid_response: bool,             // the datagram being delivered is a crafted response that must be ignored
     token_bound: HashMap<u64, SocketAddr>, // token -> the address its MAC was first recorded for by the server
     max_accepted: HashMap<(u8, u64), u64>, // (direction, client k) -> highest sequence accepted in the current session
     owner_crafted: bool,                 // the datagram being delivered was sealed by the owner of the token (op 155)
@@ -106,6 +108,7 @@ impl NHistory {
             delivered_to_server: HashSet::new(),
             token_seen_from: HashMap::new(),
             token_sessions: HashMap::new(),
+            invalid_response: false,
             token_bound: HashMap::new(),
             max_accepted: HashMap::new(),
             owner_crafted: false,
@@ -154,7 +157,7 @@ impl NHistory {
                         let same_dir = tok.client_to_server_key == tok.server_to_client_key;
                         let shared = self.tokens.iter().any(|(k2, t)| *k2 != k && (t.c2s == tok.client_to_server_key || t.s2c == tok.server_to_client_key || t.c2s == tok.server_to_client_key || t.s2c == tok.client_to_server_key));
                         key_flags = (same_dir, shared);
-                        self.tokens.insert(k, TokenInfo { valid_for_server: valid, id: tok.client_id, user, c2s: tok.client_to_server_key, s2c: tok.server_to_client_key, protocol: tok.protocol_id, expire: tok.expire_timestamp });
+                        self.tokens.insert(k, TokenInfo { valid_for_server: valid, id: tok.client_id, user, c2s: tok.client_to_server_key, s2c: tok.server_to_client_key, protocol: tok.protocol_id, expire: tok.expire_timestamp, timeout: tok.timeout_seconds });
                     }
                 }
                 _ => {}
@@ -328,6 +331,12 @@ impl NHistory {
             }
             if kind != 0 {
                 self.violate("C07", format!("a datagram that is not authentic for its session produced {}", obs.to_text()));
+                if self.invalid_response {
+                    self.violate("C19", format!("a connection response that does not echo the challenge of its own handshake was answered with {}", obs.to_text()));
+                }
+                if is_request && genuine_of.is_none() {
+                    self.violate("C17", format!("a connection request with a modified public field or sealed part was answered with {}", obs.to_text()));
+                }
             }
         }
         // C04, second half: a genuine payload is surfaced the first time it arrives on a connected session
@@ -715,6 +724,11 @@ impl NHistory {
                 }
                 // a request stays the same request when only the unused high nibble of its prefix or trailing bytes differ
                 let same_request = is_request && data.len() >= 1078 && orig.len() >= 1078 && data[0] & 15 == 0 && data[1..1078] == orig[1..1078];
+                // any other change to a request (version, protocol id, expiry, nonce, sealed part, length) makes it one that cannot validate
+                let inauthentic = inauthentic || (is_request && !unmodified && !same_request && data.first().map(|p| p & 15 == 0).unwrap_or(true));
+                if inauthentic {
+                    self.feat("tampered_request_to_server");
+                }
                 self.to_server(from, data, if unmodified || same_request { Some((k, i)) } else { None }, inauthentic);
             }
             152 | 153 => {
@@ -826,9 +840,42 @@ impl NHistory {
                 };
                 buf.truncate(len);
                 self.feat("crossed_challenge_response");
-                // authentic for the session at `from` only if it is that session's own challenge
+                // the response must be ignored unless the pending entry at `from` is for the very client id and
+                // user data the challenge was issued for
+                let matches_pending = self.world.server.as_ref().map(|s| s.verif_pending().iter().any(|p| p.addr == from && p.client_id == tc.id && p.user_data.to_vec() == tc.user)).unwrap_or(false);
                 self.owner_crafted = true;
-                self.to_server(from, buf, None, false);
+                self.invalid_response = !matches_pending;
+                self.to_server(from, buf, None, !matches_pending);
+                self.invalid_response = false;
+                self.owner_crafted = false;
+            }
+            158 => {
+                // (158 k seq garbage): the owner of client k's token sends a response whose challenge token is garbage
+                let (k, seq) = (u(1).unwrap_or(0), u(2).unwrap_or(0));
+                let garbage = v.get(3).and_then(|t| t.as_b()).map(|x| x.to_vec()).unwrap_or_default();
+                let (from, tk) = match (self.client_addr.get(&k), self.client_token.get(&k).and_then(|t| self.tokens.get(t)).cloned()) {
+                    (Some(a), Some(t)) => (*a, t),
+                    _ => {
+                        self.comment("unknown client: skipped");
+                        return true;
+                    }
+                };
+                let mut td = [0u8; 300];
+                for (i, x) in garbage.iter().take(300).enumerate() {
+                    td[i] = *x;
+                }
+                let mut buf = vec![0u8; 1400];
+                let pkt = Packet::Response { token_sequence: seq, token_data: td };
+                let len = match pkt.encode(&mut buf, tk.protocol, Some((seq, &tk.c2s))) {
+                    Ok(l) => l,
+                    Err(_) => return true,
+                };
+                buf.truncate(len);
+                self.feat("garbage_challenge_response");
+                self.owner_crafted = true;
+                self.invalid_response = true;
+                self.to_server(from, buf, None, true);
+                self.invalid_response = false;
                 self.owner_crafted = false;
             }
             170 => {
@@ -874,10 +921,18 @@ impl NHistory {
             let addr_free = !clients.iter().any(|x| x.addr == addr);
             let pending_ok = s.verif_pending().iter().all(|p| p.addr != addr || (p.client_id == tinfo.id && p.user_data[..] == tinfo.user[..]));
             let targets_server = s.addresses().contains(&c.server_addr()) || true;
+            // a client already in the response step can only complete the attempt its challenge belongs to: the server
+            // must still hold that attempt (it drops it when the id connects elsewhere, when it expires, ...)
+            let (cstate, _, last_recv, _, _, chal_seq) = c.verif_state();
+            let tinfo_timeout = tinfo.timeout;
+            // the client's own deadline: it gives up when nothing arrived for the token's timeout
+            let silent = c.current_time().saturating_sub(last_recv);
+            let deadline_ok = tinfo_timeout <= 0 || silent + std::time::Duration::from_millis(250 * (rounds + 1)) < std::time::Duration::from_secs(tinfo_timeout as u64);
+            let responding_ok = cstate != 2 || s.verif_pending().iter().any(|p| p.addr == addr && p.client_id == tinfo.id && p.first_challenge_sequence <= chal_seq);
             // the token must stay valid for the rounds, and the client must still have time before its own deadline
             let not_expired = s.current_time().as_secs() + 3 < tinfo.expire;
             let token_unused_elsewhere = self.client_token.get(&k).and_then(|t| self.token_seen_from.get(t)).map(|s| s.iter().all(|a| *a == addr)).unwrap_or(true);
-            connecting && free && id_free && addr_free && pending_ok && targets_server && not_expired && tinfo.valid_for_server && token_unused_elsewhere
+            connecting && free && id_free && addr_free && pending_ok && responding_ok && deadline_ok && targets_server && not_expired && tinfo.valid_for_server && token_unused_elsewhere
         };
         let targets = self.world.clients.get(&k).map(|c| self.world.server.as_ref().map(|s| s.addresses().contains(&c.server_addr())).unwrap_or(false)).unwrap_or(false);
         let client_time = self.world.clients.get(&k).map(|c| c.current_time()).unwrap_or_default();
